@@ -7,6 +7,7 @@ import EraVerif.Model.C10Read
 import EraVerif.Model.C10Readers
 import EraVerif.Model.C10Canon
 import EraVerif.Model.C10Verify
+import EraVerif.Model.C10Votes
 
 /-!
 Model driver of C10. One JSON operation per line, one JSON observation per line.
@@ -25,6 +26,7 @@ Model driver of C10. One JSON operation per line, one JSON observation per line.
 * `{"op":"canon","occ":[..]}`                                 → `{"class"}`
 * `{"op":"sel","old":{"key","kind","inner"},"new":{..}}`      → `{"sel","old_view","new_view"}`
 * `{"op":"cqc","ctx":{..},"qc":{..}}`, `{"op":"tqc",..}`, `{"op":"implied",..}` → `{"class",..}`
+* `{"op":"votes","ctx":{..},"msgs":[{"kind":"commit"|"timeout","signer":i|null,"sig":bool,"m":vote|tvote}]}` → `{"verdicts":[..],"view"}`
 * `{"op":"replica",..}` (only exercised on the implementation) → `{}`
 -/
 namespace Driver.C10
@@ -300,6 +302,29 @@ def opImplied (j : Json) : Json :=
     | r => obj (clsOf r)
   | _, _ => badOp
 
+open Verify Votes in
+def opVotes (j : Json) : Json :=
+  match getObj j "ctx", getArr j "msgs" with
+  | some c, some msgs =>
+    let c := ctxOf c
+    let ops : List Votes.Op := msgs.toList.map fun m =>
+      let signer := getNat m "signer"
+      let sig := (getBool m "sig").getD false
+      let body := (getObj m "m").getD Json.null
+      if (getStr m "kind").getD "" = "commit" then Votes.Op.commit ⟨signer, sig, voteOf body⟩
+      else Votes.Op.timeout ⟨signer, sig, tvoteOf body⟩
+    match Votes.runOps c Votes.St.init ops with
+    | .ok (s, vs) =>
+      obj [("verdicts", Json.arr (vs.map fun v => match v with
+              | .accepted => strJ "accepted"
+              | .rejected _ => strJ "rejected").toArray),
+           ("view", natJ s.view),
+           ("_why", Json.arr (vs.map fun v => match v with
+              | .accepted => strJ ""
+              | .rejected w => strJ w).toArray)]
+    | r => obj (clsOf r)
+  | _, _ => badOp
+
 def handle (j : Json) : Json :=
   match getStr j "op" with
   | some "dur" => opDur false j
@@ -318,6 +343,7 @@ def handle (j : Json) : Json :=
   | some "cqc" => opCqc j
   | some "tqc" => opTqc j
   | some "implied" => opImplied j
+  | some "votes" => opVotes j
   | some "replica" => obj []
   | _ => badOp
 
